@@ -86,6 +86,15 @@ func (t *translator) typeOf(e ast.Expr) trType {
 		}
 	case *ast.SliceExpr:
 		return t.typeOf(x.X)
+	case *ast.UnaryExpr:
+		if x.Op == token.NOT {
+			return tBool
+		}
+	case *ast.BinaryExpr:
+		switch x.Op {
+		case token.LAND, token.LOR, token.LSS, token.LEQ, token.GTR, token.GEQ, token.EQL, token.NEQ:
+			return tBool
+		}
 	}
 	return tNat
 }
@@ -311,6 +320,23 @@ func (t *translator) stmts(list []ast.Stmt, ind string) string {
 		return t.fail("a path ends without return")
 	}
 	head, rest := list[0], list[1:]
+	// `if v := e; cond {…}` and `switch v := e; v {…}`: the declaration, then the statement without it
+	// (the variable's scope ends with the statement: it must not clash with a later name, which the
+	// redeclaration test below enforces)
+	switch x := head.(type) {
+	case *ast.IfStmt:
+		if as, ok := x.Init.(*ast.AssignStmt); ok && as.Tok == token.DEFINE {
+			y := *x
+			y.Init = nil
+			return t.stmts(append([]ast.Stmt{as, &y}, rest...), ind)
+		}
+	case *ast.SwitchStmt:
+		if as, ok := x.Init.(*ast.AssignStmt); ok && as.Tok == token.DEFINE {
+			y := *x
+			y.Init = nil
+			return t.stmts(append([]ast.Stmt{as, &y}, rest...), ind)
+		}
+	}
 	switch x := head.(type) {
 	case *ast.ReturnStmt:
 		var parts []string
@@ -357,10 +383,14 @@ func (t *translator) stmts(list []ast.Stmt, ind string) string {
 			if _, dup := t.vars[id.Name]; dup {
 				return t.fail("redeclaration of %s", id.Name)
 			}
-			// the subset's locals are ints
-			v := t.expr(x.Rhs[0], tNat)
-			t.vars[id.Name] = tNat
-			return fmt.Sprintf("let %s : Int := %s\n%s%s", id.Name, v, ind, t.stmts(rest, ind))
+			// locals: ints, strings, bools (by the type of the right-hand side)
+			ty := t.typeOf(x.Rhs[0])
+			if ty == tBytes {
+				return t.fail("local []byte variable")
+			}
+			v := t.expr(x.Rhs[0], ty)
+			t.vars[id.Name] = ty
+			return fmt.Sprintf("let %s : %s := %s\n%s%s", id.Name, leanTy[ty], v, ind, t.stmts(rest, ind))
 		}
 	case *ast.SwitchStmt:
 		if x.Init != nil || x.Tag == nil {
